@@ -96,6 +96,16 @@ CHECKS = {
              'covered. Trusted: cxx2c lowering; the vector/unique_ptr model (ownership not modelled); type codes 1..127.',
         technique='CBMC code contracts on C lowered from the real C++ per run',
     ),
+    'C07': dict(
+        category='proof',
+        text='Slice: fix_dwarf_formsdata lowered per run from /repo/libzwerg/atval.cc. Contract: for DW_FORM_data1/2/4 the value '
+             'given to the signed path is the sign extension of the N stored bytes whichever way libdw extended them, other forms '
+             'pass libdw\'s value through, a libdw error is passed on and nothing is written; all 2^64 values, all form codes.',
+        design_ref='DESIGN.md section 4 C07',
+        note='SLICE ONLY (one function). dwarf_formsdata is an assumed contract (props/c07/libdw_model.h). Form dispatch, '
+             'type-encoding lookup, location expressions, strings, references: not covered.',
+        technique='CBMC code contracts on C lowered from the real C++ per run',
+    ),
 }
 
 NOT_APPLICABLE = {
